@@ -13,12 +13,11 @@ from fractions import Fraction
 from vlib import core
 
 META = {
-    "claimed": False,
     "harness_bins": ["nkeval"],
     "extract": "C16.v",
-    "technique": "Coq proofs about an executable model of Number arithmetic (canonical rationals), of the std.number.* bodies translated from std.ncl at check time, and of == on data (explicit-stack algorithm = structural recursion = equality of canonical exported trees); model tied to the interpreter by exhaustive-grid and random differential runs with exact p/q comparison",
-    "level_text": "TODO",
-    "level_note": "TODO",
+    "technique": "Coq proofs about an executable model of Number arithmetic on canonical rationals, about the std.number.* bodies translated from std.ncl at check time, and about == on data (explicit-stack algorithm of operation.rs = structural recursion = equality of canonical exported trees); model tied to the interpreter by an exhaustive literal/operator grid and random differential runs compared as exact p/q, with law-expressions and an independent Fraction reference as direct oracles",
+    "level_text": "60 theorems (coq/Props/C16.v), all for unbounded inputs: + - * are commutative/associative/distributive with units on the canonical (lowest-terms) results the model computes and do not depend on the representative of the operands; / and % raise the division-by-zero error exactly when the divisor is zero, q*b = a for q = a/b; a = trunc(a/b)*b + a%b with |a%b| < |b| and the sign of the dividend; < <= > >= == form a total order compatible with + and with * by positives; pow on an i64 exponent is the exact rational power (pow_add, pow_mul, pow_neg, pow_succ, the zero-base/negative-exponent error explicit), any other exponent is marked unspecified (f64 path); number literals denote digits.fraction * 10^exponent exactly (leading/trailing zeros and point/exponent shifts irrelevant). The bodies of std.number.{floor,truncate,fract,abs,min,max,is_integer,compare,pow} are re-translated from /repo/core/stdlib/std.ncl on every run (fail closed) and floor x = Qfloor x, truncate = rounding towards zero, x = truncate x + fract x with |fract x| < 1, abs, min/max (lattice laws), is_integer, compare are proved about the translated bodies. On data values (null, bool, number, string, enum tag, enum variant, array, record with distinct keys): == is reflexive, symmetric, transitive, independent of field order and of the representative of numbers, holds exactly when the canonical exported trees are equal, agrees with equality of the serialized form on enum-free data (refuted with a witness when enum tags are present: 'a vs \"a\"), and the explicit stack-of-sub-equalities algorithm of operation.rs (its evaluation order included) computes the structural recursion. The models are tied to the interpreter built from /repo by differential runs: every p/q with |p|<=12, q<=6 in every literal spelling x every operator and std.number function (thorough: all pairs), 200-digit random values, random nested expressions, random and exhaustive-small-universe triples of data values with and without pending contracts; every result is compared with the extracted model and with an independent exact reference, and the equality laws are also checked directly on the interpreter's own answers.",
+    "level_note": "Trusted: Coq kernel; extraction (ExtrOcamlBasic + ExtrOcamlNativeString, no Extract Constant); ocaml/c16/driver.ml and harness/src/eval.rs (parsing/printing); the translator's tokenizer/parser for the std.ncl fragment (a mis-translation shows up as a model-vs-interpreter disagreement on the grid); python generators and Fraction reference in checks/c16.py. Modelled, not verified: operation.rs number operators and eq(), malachite (Rational arithmetic, from_sci_string, rounding_from Down) -- tied by correspondence only. Outside the theorems: results through f64 (pow with non-i64 exponent, sqrt, log, trigonometry: checked not to crash only); == on records with empty optional fields, not_exported fields, pending contracts, functions/labels (pending validating contracts and optional fields are exercised by direct oracles on the interpreter, not by a theorem); the lexer regex itself (literal spellings are generated from it by hand).",
 }
 
 STD_NCL = os.path.join(core.REPO, "core", "stdlib", "std.ncl")
@@ -1274,9 +1273,6 @@ def run_pinned(ck, it):
         if got != want:
             ck.violation(key, "`%s` gives `%s`, the property demands `%s`" % (expr, got, want),
                          {"kind": "pinned", "nickel": expr, "impl": got, "expected": want})
-
-
-LEVEL_TEXT = "TODO"
 
 
 def build(ck):
